@@ -1,14 +1,16 @@
 """C07 -- results do not depend on feature configuration or SIMD backend."""
 import re
 
-from .. import sym, tables
+from .. import sym, tables, engine
 from ..norm import n, P, C, V, ANY, match, find_all, binop
 from . import common, cmpmodel, cfgdiff, simd, hexcodec, c01
 
 ID = "C07"
-CONFIGS = {"quick": ["K0", "K1", "K7", "K8", "K13"],
-           "thorough": ["K0", "K1", "K2", "K3", "K4", "K5", "K6", "K7", "K8", "K9", "K10", "K11", "K12", "K13", "K14a", "K14b", "K14c", "K15", "K16"]}
-CONFIG_FAILURE_IS_VIOLATION = set(CONFIGS["thorough"])
+CONFIGS = {"quick": ["K0", "K1", "K3", "K5", "K6", "K7", "K8", "K9", "K13", "K14a", "K17", "K20", "K21"],
+           "thorough": ["K0", "K1", "K2", "K3", "K4", "K5", "K6", "K7", "K8", "K9", "K10", "K11", "K12", "K13", "K14a", "K14b", "K14c", "K15", "K16", "K17", "K19", "K20", "K21"]}
+# a configuration of the host target that stops type-checking is itself a violation; the cross-target ones (K17..K21, built with
+# -Zbuild-std) are skipped with a note if they cannot be built
+CONFIG_FAILURE_IS_VIOLATION = {k for k in CONFIGS["thorough"] if engine.target_of(k).startswith("x86_64")}
 META = {
     "explanation": (
         "Static analysis across build configurations.  General cross-configuration equality of results on all inputs is "
@@ -47,7 +49,8 @@ LADDER = [
     (r"hash::inner::FuzzyHash<.*core::fmt::Display>::fmt$", "from_utf8 vs from_utf8_unchecked (unsafe)"),
     (r"serde::(Serialize|Deserialize)", "serde text path (unsafe) and buffered variants"),
     (r"generate::public::GeneratorType>::update$", "invariant!"),
-    (r"^length::FuzzyHashLengthEncoding::new$", "invariant!"),
+    (r"^length::FuzzyHashLengthEncoding::new$", "invariant!; leading_zeros-bracketed search vs plain binary search by target architecture"),
+    (r"::(arm_neon|wasm32_simd128)::", "per-architecture backends"),
     (r"^intrinsics::(likely|unlikely)$", "unstable intrinsics"),
 ]
 # item groups that exist only in some configurations
@@ -55,6 +58,7 @@ PRESENCE = [
     r"::x86_(sse2|ssse3|sse4_1|avx2)::", r"::naive::", r"^parse::hex_str::", r"^parse::bits::", r"^generate_easy_std::", r"^generate_easy::", r"^compare_easy::",
     r"errors::ParseErrorEither", r"errors::ParseErrorSide", r"errors::GeneratorOrIOError", r"serde::", r"FuzzyHash(String|Bytes)Visitor",
     r"^compare::dist_body::distance_(32|64)::\{closure", r"^generate::bucket_aggregation::aggregate_(48|128|256)::\{closure",
+    r"::arm_neon::", r"::wasm32_simd128::",
     r"core::error::Error", r"^compare::dist_body::pseudo_simd_", r"^generate::bucket_aggregation::portable_simd", r"^compare::dist_body::portable_simd",
 ]
 
@@ -68,22 +72,28 @@ def run(ctx, FS):
     ctx.rule(r1, "configuration dependence is confined to the enumerated cfg ladders (structural MIR hash per function across configurations)")
     sigs = {k: cfgdiff.sigs(F) for k, F in FS.items()}
     keys = sorted(sigs)
-    base = "K0" if "K0" in sigs else keys[0]
     compared = 0
+    # MIR embeds usize-typed constants and layouts, so configurations are compared within a pointer-width group
+    # (64-bit: x86_64, aarch64, riscv64; 32-bit: i686, wasm32), each against that group's first configuration
+    groups = {}
     for k in keys:
-        if k == base:
-            continue
-        for p, s in sigs[base].items():
-            if p in sigs[k]:
-                compared += 1
-                if sigs[k][p] != s and not allowed(p, [x for x, _ in LADDER]):
-                    ctx.ob(r1, (p, "differs-between-configurations"), False,
-                           "unexplained configuration dependence: %s has different MIR in %s and %s and is not an enumerated cfg ladder" % (p, base, k), cfg=k)
-            elif not allowed(p, PRESENCE):
-                ctx.ob(r1, (p, "present-only-in-some-configurations"), False, "%s exists in %s but not in %s" % (p, base, k), cfg=k)
-        for p in sigs[k]:
-            if p not in sigs[base] and not allowed(p, PRESENCE):
-                ctx.ob(r1, (p, "present-only-in-some-configurations"), False, "%s exists in %s but not in %s" % (p, k, base), cfg=k)
+        groups.setdefault(engine.pointer_width(k), []).append(k)
+    for width, gkeys in sorted(groups.items()):
+        base = "K0" if "K0" in gkeys else gkeys[0]
+        for k in gkeys:
+            if k == base:
+                continue
+            for p, s in sigs[base].items():
+                if p in sigs[k]:
+                    compared += 1
+                    if sigs[k][p] != s and not allowed(p, [x for x, _ in LADDER]):
+                        ctx.ob(r1, (p, "differs-between-configurations"), False,
+                               "unexplained configuration dependence: %s has different MIR in %s and %s and is not an enumerated cfg ladder" % (p, base, k), cfg=k)
+                elif not allowed(p, PRESENCE):
+                    ctx.ob(r1, (p, "present-only-in-some-configurations"), False, "%s exists in %s but not in %s" % (p, base, k), cfg=k)
+            for p in sigs[k]:
+                if p not in sigs[base] and not allowed(p, PRESENCE):
+                    ctx.ob(r1, (p, "present-only-in-some-configurations"), False, "%s exists in %s but not in %s" % (p, k, base), cfg=k)
     ctx.instance(r1, compared)
     ctx.ob(r1, ("cross-configuration-diff", "functions-compared"), compared > 0, "", detail={"pairs_compared": compared, "configs": keys})
     ctx.floor(r1, 300 * max(1, len(keys) - 1), "function pairs compared")
